@@ -73,11 +73,11 @@ CALLS = [
     "%s.iter().filter(%s).list()", "%s.iter().take(%s).list()", "%s.iter().skip(%s).list()", "%s.iter().zip(%s.iter()).list()",
     "%s.iter().all(%s)", "%s.iter().any(%s)", "%s.split(%s).list()", "%s + %s", "%s - %s", "%s * %s", "%s / %s", "%s < %s",
     "%s == %s", "-%s", "!%s", "%s.str()", "%s.len()", "%s.times().take(3).list()", "%s.until(%s).take(3).list()", "Number.parse(%s)",
-    "%s.floor()", "%s.up()", "%s.trim()", "%s()", "%s(%s)", "%s.close()", "%s.rev()", "%s.iter().first()", "%s.iter().last()",
+    "%s.floor()", "%s.upCase()", "%s.trim()", "%s()", "%s(%s)", "%s.close()", "%s.rev()", "%s.iter().first()", "%s.iter().last()",
     "[%s, %s].sort(%s)", "{%s: %s}.len()", "'${%s}'", "%s.iter().into(List.collect)", "%s.cls().name()", "%s && %s", "%s || %s",
     # (an absent key is named in the message of the error)
     "{1: 'a'}[%s]", "{'k': 1}[%s]", "{1: 'a'}.remove(%s)",
-    "%s.message", "%s.pop()", "%s.clear()", "%s.cmp(%s)", "%s.round()", "%s.ceil()", "%s.down()", "%s.has(%s) == %s.has(%s)",
+    "%s.message", "%s.pop()", "%s.clear()", "%s.cmp(%s)", "%s.round()", "%s.ceil()", "%s.downCase()", "%s.has(%s) == %s.has(%s)",
 ]
 
 
